@@ -556,7 +556,7 @@ class Element(Node):
         f.write(('<'+self.tagName))
         if level == 0:
             for namespace, prefix in self.namespaces.items():
-                f.write(u' xmlns:' + prefix + u'="'+ _sanitize(str(namespace))+'"')
+                f.write(u' xmlns:' + prefix + u'=' + _quoteattr(str(namespace)))
         for qname in self.attributes.keys():
             prefix = self.get_nsprefix(qname[0])
             name = (prefix+u':'+qname[1]) if prefix else qname[1]
@@ -575,7 +575,7 @@ class Element(Node):
         f.write(u'<'+self.tagName)
         if level == 0:
             for namespace, prefix in self.namespaces.items():
-                f.write(u' xmlns:' + prefix + u'="'+ _sanitize(str(namespace))+u'"')
+                f.write(u' xmlns:' + prefix + u'=' + _quoteattr(str(namespace)))
         for qname in self.attributes.keys():
             prefix = self.get_nsprefix(qname[0])
             name = (prefix+u':'+qname[1]) if prefix else qname[1]
